@@ -557,20 +557,31 @@ def kinds_not_confused(ctx: Ctx, rule: str, modules: Iterable[str], what: str, c
     st_mod = ctx.prog.modules.get("dds.structures")
     if st_mod is None:
         raise AnchorError("dds.structures not found")
-    for name, sts in st_mod.assigns.items():
-        for st in sts:
-            v = getattr(st, "value", None)
-            if isinstance(v, ast.Call) and unparse(v.func).split(".")[-1] == "NewType":
-                kinds.append(name)
+    for mod_ in ctx.prog.modules.values():
+        for name, sts in mod_.assigns.items():
+            for st in sts:
+                v = getattr(st, "value", None)
+                if isinstance(v, ast.Call) and unparse(v.func).split(".")[-1] == "NewType" and name not in kinds:
+                    kinds.append(name)
     for c in ctx.prog.classes.values():
         if c.module is st_mod and c.name.endswith("Path"):
             kinds.append(c.name)
     rels = {ctx.prog.module(m).relpath: m for m in modules if m in ctx.prog.modules}
     hits = []
     for e in getattr(ctx.types, "errors", []):
-        m_ = re.match(r"(.*?):(\d+): error: (.*)\[(arg-type|assignment|return-value|index|dict-item|list-item|call-overload)\]\s*$", e)
-        if m_ and m_.group(1).replace("\\", "/") in rels and (any(re.search(r"\b" + k + r"\b", m_.group(3)) for k in kinds) or any(f'"{c_}"' in m_.group(3) for c_ in callees)):
-            hits.append((m_.group(1), int(m_.group(2)), m_.group(3).strip()))
+        m_ = re.match(r"(.*?):(\d+): error: (.*)\[arg-type\]\s*$", e)
+        if not (m_ and m_.group(1).replace("\\", "/") in rels):
+            continue
+        msg_ = m_.group(3)
+        t_ = re.search(r'has incompatible type "([^"]*)"; expected "([^"]*)"', msg_)
+        if t_ is None:
+            continue
+        got_k = {k for k in kinds if re.search(r"\b" + k + r"\b", t_.group(1))}
+        exp_k = {k for k in kinds if re.search(r"\b" + k + r"\b", t_.group(2))}
+        # an argument of one kind where another kind is declared (imprecise annotations - Any, unions that contain the declared kind - are not this)
+        confused = bool(got_k) and bool(exp_k) and not (got_k & exp_k) and "Any" not in t_.group(1)
+        if confused or any(f'"{c_}"' in msg_ for c_ in callees):
+            hits.append((m_.group(1), int(m_.group(2)), msg_.strip()))
     if not hits:
         rep.ok(rule, "dds", f"no value of one kind ({', '.join(sorted(kinds))}) is used where another is declared, in {sorted(rels.values())}", "dds/")
     for rel, ln, msg in hits:
